@@ -39,6 +39,20 @@ type Case struct {
 	Side    string `json:"side"` // request | response
 	Entry   string `json:"entry"`
 	Payload string `json:"payload"`
+	// Prior: the entry is first applied with a benign argument, then neighbours are added (another cookie, another
+	// field), then the entry is applied with the payload: the setters' update-in-place paths, not only their append paths.
+	Prior bool `json:"prior,omitempty"`
+}
+
+func merge(a, b map[string]int) map[string]int {
+	out := map[string]int{}
+	for k, v := range a {
+		out[k] += v
+	}
+	for k, v := range b {
+		out[k] += v
+	}
+	return out
 }
 
 // An entry applies payload p and returns the field names that may legitimately appear because of it
@@ -398,11 +412,12 @@ func judgeMessage(msg []byte, startLine string, allowed map[string]int, chunked 
 }
 
 type worker struct {
-	s    *srvh.Server
-	cli  *clih.Client
-	cur  *respEntry
-	curP string
-	got  map[string]int
+	s     *srvh.Server
+	cli   *clih.Client
+	cur   *respEntry
+	curP  string
+	prior bool
+	got   map[string]int
 }
 
 type emptyReader struct{}
@@ -417,6 +432,16 @@ func newWorker() *worker {
 		if w.cur.chunk {
 			ctx.Response.SetBodyStream(emptyReader{}, -1)
 		}
+		if w.prior {
+			m0 := w.cur.apply(ctx, "tok0")
+			var ck protocol.Cookie
+			ck.SetKey("zz")
+			ck.SetValue("1")
+			ctx.Response.Header.SetCookie(&ck)
+			ctx.Response.Header.Set("X-Zz", "1")
+			w.got = merge(merge(m0, w.cur.apply(ctx, w.curP)), map[string]int{"x-zz": 1, "set-cookie": 1})
+			return
+		}
 		w.got = w.cur.apply(ctx, w.curP)
 	}
 	w.s.E.Any("/*any", w.s.Echo)
@@ -427,7 +452,7 @@ func newWorker() *worker {
 
 func (w *worker) exec(c *mc.Ctx, cs Case) {
 	fail := func(why string, out []byte) {
-		c.Violate(cs.Side+"|"+cs.Entry, fmt.Sprintf("%s with payload %q: %s\nwire=%q", cs.Entry, cs.Payload, why, clip(out)), cs)
+		c.Violate(cs.Side+"|"+cs.Entry+map[bool]string{false: "", true: "|after-prior-use"}[cs.Prior], fmt.Sprintf("%s with payload %q: %s\nwire=%q", cs.Entry, cs.Payload, why, clip(out)), cs)
 	}
 	if cs.Side == "request" {
 		var e *reqEntry
@@ -450,7 +475,14 @@ func (w *worker) exec(c *mc.Ctx, cs Case) {
 		var pan interface{}
 		func() {
 			defer func() { pan = recover() }()
-			allowed = e.apply(req, cs.Payload)
+			if cs.Prior {
+				m0 := e.apply(req, "tok0")
+				req.Header.SetCookie("zz", "1")
+				req.Header.Set("X-Zz", "1")
+				allowed = merge(merge(m0, e.apply(req, cs.Payload)), map[string]int{"x-zz": 1})
+			} else {
+				allowed = e.apply(req, cs.Payload)
+			}
 		}()
 		if pan != nil {
 			return // the setter refused the argument by panicking: nothing is serialised (crashes are C03's business)
@@ -480,7 +512,7 @@ func (w *worker) exec(c *mc.Ctx, cs Case) {
 	if e == nil {
 		return
 	}
-	w.cur, w.curP, w.got = e, cs.Payload, nil
+	w.cur, w.curP, w.got, w.prior = e, cs.Payload, nil, cs.Prior
 	res := w.s.Run([][]byte{[]byte("GET /r HTTP/1.1\r\nHost: h\r\n\r\n")}, netsim.EndEOF, nil)
 	if res.Panic != nil {
 		return // a setter that panics inside a handler is recovered/propagated like any handler panic; not an injection
@@ -547,16 +579,16 @@ func run(c *mc.Ctx) {
 	var cases []Case
 	for _, e := range reqEntries {
 		for _, p := range ps {
-			cases = append(cases, Case{"request", e.name, p})
+			cases = append(cases, Case{Side: "request", Entry: e.name, Payload: p}, Case{Side: "request", Entry: e.name, Payload: p, Prior: true})
 		}
 	}
 	for _, e := range respEntries {
 		for _, p := range ps {
-			cases = append(cases, Case{"response", e.name, p})
+			cases = append(cases, Case{Side: "response", Entry: e.name, Payload: p}, Case{Side: "response", Entry: e.name, Payload: p, Prior: true})
 		}
 	}
-	c.Sample(Case{"response", "RequestContext.Header/value", "to\r\n:k"})
-	c.Sample(Case{"request", "RequestHeader.SetCookie/value", "tok\r\na"})
+	c.Sample(Case{Side: "response", Entry: "RequestContext.Header/value", Payload: "to\r\n:k"})
+	c.Sample(Case{Side: "request", Entry: "RequestHeader.SetCookie/value", Payload: "tok\r\na", Prior: true})
 	ex := c.Counter("executions")
 	nt := c.Counter("nontrivial")
 	pool := make(chan *worker, 64)
